@@ -18,6 +18,11 @@ package evaluator
 //@      ite(istype(o, *object.Str), as(o, *object.Str).Value != "",
 //@      ite(istype(o, *object.Nil), false, ite(o == nil, false, true))))))
 
+//@ spec intOf(o object.Object) int = as(o, *object.Int).Value
+//@ spec isInt(o object.Object, v int) bool = istype(o, *object.Int) && as(o, *object.Int).Value == v
+//@ spec boolObj(b bool) object.Object = iface(ite(b, TRUE, FALSE))
+//@ spec isErr(o object.Object) bool = istype(o, *object.Error)
+
 //@ func isTruthy
 //@   ensures result == truthy(obj)
 //@   modifies nothing
@@ -93,6 +98,14 @@ package evaluator
 //@   modifies contents(env.store)
 
 //@ func (e *Evaluator) evalIfStmt
+//@   call Eval#0: assert condition-first: arg1 == node.Condition && arg2 == env
+//@   call Eval#1: assert then-only-if-truthy: truthy(condition) && arg1 == iface(node.Consequence) && arg2 == newEnv
+//@   call Eval#2: assert next-condition-only-if-previous-falsy: !truthy(condition) && arg1 == alt.Condition && arg2 == env
+//@   call Eval#3: assert elseif-body-only-if-truthy: truthy(condition) && arg1 == iface(alt.Consequence) && arg2 == newEnv
+//@   call Eval#4: assert else-only-if-none-truthy: !truthy(condition) && arg1 == iface(node.Alternative) && arg2 == newEnv
+//@   call NewEnclosedEnv#0: assert branch-scope-encloses-the-caller: arg0 == env
+//@   goal nothing-when-no-branch: !isErr(result) && !truthy(condition) && node.Alternative == nil ==> result == iface(NIL)
+//@   loop 0: invariant !truthy(condition) && !isErr(condition) && condition != nil && newEnv != nil && fresh(newEnv) && newEnv.outer == env
 //@   requires node != nil && WFNode(iface(node)) && env != nil
 //@   use wfIfStmt(node)
 //@   ensures result != nil
@@ -145,12 +158,14 @@ package evaluator
 //@   modifies contents(env.store)
 
 //@ func (e *Evaluator) evalBreakIfStmt
+//@   goal break-iff-truthy: !isErr(result) ==> result == iface(ite(truthy(condition), BREAK, NIL)) || istype(result, *object.Nil) && !truthy(condition)
 //@   requires node != nil && WFNode(iface(node)) && env != nil
 //@   use wfBreakIfStmt(node)
 //@   ensures result != nil
 //@   modifies contents(env.store)
 
 //@ func (e *Evaluator) evalContinueIfStmt
+//@   goal continue-iff-truthy: !isErr(result) ==> result == iface(ite(truthy(condition), CONTINUE, NIL)) || istype(result, *object.Nil) && !truthy(condition)
 //@   requires node != nil && WFNode(iface(node)) && env != nil
 //@   use wfContinueIfStmt(node)
 //@   ensures result != nil
@@ -169,6 +184,7 @@ package evaluator
 //@   modifies contents(env.store)
 
 //@ func (e *Evaluator) evalIdentifier
+//@   goal unknown-identifier-is-error: !has(env.store, node.Value) && env.outer == nil ==> isErr(result)
 //@   requires node != nil && env != nil
 //@   ensures result != nil
 //@   modifies contents(env.store)
@@ -197,6 +213,9 @@ package evaluator
 //@   modifies contents(env.store)
 
 //@ func (e *Evaluator) evalTernaryExp
+//@   call Eval#0: assert condition-first: arg1 == node.Condition && arg2 == env
+//@   call Eval#1: assert then-only-if-truthy: truthy(condition) && arg1 == node.Consequence && arg2 == env
+//@   call Eval#2: assert else-only-if-falsy: !truthy(condition) && arg1 == node.Alternative && arg2 == env
 //@   requires node != nil && WFNode(iface(node)) && env != nil
 //@   use wfTernaryExp(node)
 //@   ensures result != nil
@@ -233,6 +252,9 @@ package evaluator
 //@   loop 0: invariant len(result) == rangeindex + 1 && rangeindex + 1 <= len(exps)
 
 //@ func (e *Evaluator) evalInfixExp
+//@   call Eval#0: assert left-first: arg1 == left && arg2 == env
+//@   call Eval#1: assert then-right: arg1 == right && arg2 == env && !isErr(leftObj)
+//@   call evalInfixOperatorExp#0: assert operand-roles: arg1 == operator && arg2 == leftObj && arg3 == rightObj && !isErr(leftObj) && !isErr(rightObj)
 //@   requires WFN(left) && WFN(right) && env != nil
 //@   ensures result != nil
 //@   modifies contents(env.store)
@@ -251,21 +273,50 @@ package evaluator
 //@   modifies nothing
 
 //@ func (e *Evaluator) evalPostfixOperatorExp
+//@   ints wrap64
+//@   goal inc-int: operator == "++" && istype(left, *object.Int) ==> isInt(result, wrap64(intOf(left) + 1))
+//@   goal dec-int: operator == "--" && istype(left, *object.Int) ==> isInt(result, wrap64(intOf(left) - 1))
+//@   goal fresh-result: !isErr(result) ==> fresh(result)
 //@   requires left != nil && node != nil
 //@   ensures result != nil
 //@   modifies nothing
 
 //@ func (e *Evaluator) evalInfixOperatorExp
+//@   goal mixed-types-are-errors: objType(left) != objType(right) ==> isErr(result)
+//@   call evalIntegerInfixExp#0: assert operand-roles: arg1 == operator && arg2 == right && arg3 == left
+//@   call evalFloatInfixExp#0: assert operand-roles: arg1 == operator && arg2 == right && arg3 == left
+//@   call evalStringInfixExp#0: assert operand-roles: arg1 == operator && arg2 == right && arg3 == left
+//@   call evalIntegerInfixExp#0: assert typed: istype(left, *object.Int)
+//@   call evalFloatInfixExp#0: assert typed: istype(left, *object.Float)
+//@   call evalStringInfixExp#0: assert typed: istype(left, *object.Str)
 //@   requires left != nil && right != nil && leftNode != nil
 //@   ensures result != nil
 //@   modifies nothing
 
 //@ func (e *Evaluator) evalIntegerInfixExp
+//@   ints wrap64
+//@   goal add: operator == "+" ==> isInt(result, wrap64(intOf(left) + intOf(right)))
+//@   goal sub: operator == "-" ==> isInt(result, wrap64(intOf(left) - intOf(right)))
+//@   goal mul: operator == "*" ==> isInt(result, wrap64(intOf(left) * intOf(right)))
+//@   goal div: operator == "/" ==> ite(intOf(right) == 0, isErr(result), isInt(result, wrap64(intOf(left) / intOf(right))))
+//@   goal rem: operator == "%" ==> ite(intOf(right) == 0, isErr(result), isInt(result, intOf(left) % intOf(right)))
+//@   goal eq: operator == "==" ==> result == boolObj(intOf(left) == intOf(right))
+//@   goal ne: operator == "!=" ==> result == boolObj(intOf(left) != intOf(right))
+//@   goal lt: operator == "<" ==> result == boolObj(intOf(left) < intOf(right))
+//@   goal gt: operator == ">" ==> result == boolObj(intOf(left) > intOf(right))
+//@   goal le: operator == "<=" ==> result == boolObj(intOf(left) <= intOf(right))
+//@   goal ge: operator == ">=" ==> result == boolObj(intOf(left) >= intOf(right))
+//@   goal unknown-operator-is-error: operator != "+" && operator != "-" && operator != "*" && operator != "/" && operator != "%" && operator != "==" && operator != "!="
+//@        && operator != "<" && operator != ">" && operator != "<=" && operator != ">=" ==> isErr(result)
 //@   requires istype(left, *object.Int) && istype(right, *object.Int) && leftNode != nil
 //@   ensures result != nil
 //@   modifies nothing
 
 //@ func (e *Evaluator) evalStringInfixExp
+//@   goal concat: operator == "+" ==> istype(result, *object.Str) && as(result, *object.Str).Value == as(left, *object.Str).Value + as(right, *object.Str).Value
+//@   goal eq: operator == "==" ==> result == boolObj(as(left, *object.Str).Value == as(right, *object.Str).Value)
+//@   goal ne: operator == "!=" ==> result == boolObj(as(left, *object.Str).Value != as(right, *object.Str).Value)
+//@   goal other-operators-are-errors: operator != "+" && operator != "==" && operator != "!=" ==> isErr(result)
 //@   requires istype(left, *object.Str) && istype(right, *object.Str) && leftNode != nil
 //@   ensures result != nil
 //@   modifies nothing
@@ -276,11 +327,17 @@ package evaluator
 //@   modifies nothing
 
 //@ func (e *Evaluator) evalMinusPrefixOperatorExp
+//@   ints wrap64
+//@   goal neg-int: istype(right, *object.Int) ==> isInt(result, wrap64(-intOf(right)))
+//@   goal other-types-are-errors: !istype(right, *object.Int) && !istype(right, *object.Float) ==> isErr(result)
 //@   requires right != nil && node != nil
 //@   ensures result != nil
 //@   modifies nothing
 
 //@ func (e *Evaluator) evalBangOperatorExp
+//@   goal negates-bool: istype(right, *object.Bool) ==> result == boolObj(!as(right, *object.Bool).Value)
+//@   goal nil-is-falsy: istype(right, *object.Nil) ==> result == boolObj(true)
+//@   goal other-types-are-errors: !istype(right, *object.Bool) && !istype(right, *object.Nil) ==> isErr(result)
 //@   requires right != nil && node != nil
 //@   ensures result != nil
 //@   modifies nothing
